@@ -85,6 +85,15 @@ def rstep (r : RSt) (toks : List String) : RSt × String :=
   | ["par_count_ones"] => obs r (countOnes r.a) toString
   | ["acount"] => obs r (countOnes r.a) toString
   | ["count_zeros"] => obs r (countZeros r.a) toString
+  -- the same observers through a borrowed slice view (`BitVec<&[usize]>` at an odd word offset):
+  -- the model is backend-parametric, so they are the same functions
+  | ["sv_count_ones"] => obs r (countOnes r.a) toString
+  | ["sv_ones"] => obs r (iterOnes r.a) fmtNatList
+  | ["sv_zeros"] => obs r (iterZeros r.a) fmtNatList
+  | ["sv_iter"] => obs r (iterAll r.a) fmtBoolList
+  | ["sv_eq"] => obs r (eq r.a r.b) fmtBool
+  | ["sv_get", i] => match parseNat i with
+    | some i => obs r (get r.a i) fmtBool | none => bad
   | ["eq"] => obs r (eq r.a r.b) fmtBool
   | ["clone"] => reply { r with b := r.a } "ok"
   | ["swapab"] => reply { a := r.b, b := r.a } "ok"
